@@ -335,7 +335,10 @@ def seq_slice1(s, lo, hi):
         def psum(k):
             return s.psum(lo + k) - s.psum(lo)
 
-    return SSeq(n, lambda i: s.get(lo + i), s.shape, psum, "slice")
+    r = SSeq(n, lambda i: s.get(lo + i), s.shape, psum, "slice")
+    if isinstance(s.length, int):
+        r.max_len = s.length  # a concrete bound on the symbolic length (used to unfold definitions eagerly)
+    return r
 
 
 def seq_update(s, k, v):
